@@ -1344,12 +1344,21 @@ class Authenticated(BaseClientHandler):
                 # Do an EXPUNGE if there are any messages marked 'Delete'
                 #
                 if self.mbox.sequences.get("Deleted", []):
-                    uid_msg_set = (
-                        list(cmd.msg_set_as_set)
-                        if cmd.uid_command and cmd.msg_set_as_set
-                        else None
-                    )
-                    await self.mbox.expunge(uid_msg_set=uid_msg_set)
+                    if cmd.uid_command:
+                        # NOTE: `msg_set_as_set` holds message sequence
+                        #       numbers (the UIDs that exist in this mailbox
+                        #       converted by the management task.) expunge()
+                        #       wants UIDs. If none of the UIDs exist there is
+                        #       nothing to expunge.
+                        #
+                        uid_msg_set = [
+                            self.mbox.uids[x - 1]
+                            for x in sorted(cmd.msg_set_as_set or [])
+                        ]
+                        if uid_msg_set:
+                            await self.mbox.expunge(uid_msg_set=uid_msg_set)
+                    else:
+                        await self.mbox.expunge()
         finally:
             self.idling = idling
 
